@@ -97,6 +97,8 @@ VARIANTS = {
         silent('rename-lambda-var', L, 'List._sym_rebind', 'key=lambda x: x[0]', 'key=lambda kv: kv[0]'),
     ],
     'C03': [
+        fire('relocate-only-when-type-checking', L, 'List._formalized_value', 'return self._relocate_if_symbolic(idx, value)', 'if flags.is_type_check_enabled():\n      return self._relocate_if_symbolic(idx, value)\n    return value', 'C03.i', 'typecheck-flag'),
+        fire('clear-without-prevalidation', D, 'Dict.clear', 'value_spec.schema.apply({}, allow_partial=self._allow_partial, root_path=self.sym_path)', 'pass', 'C03.c', 'Dict.clear#bulk'),
         fire('union-returns-converted', VS, 'Union._apply', 'return c.apply(converter(value), allow_partial=allow_partial, child_transform=child_transform, root_path=root_path)', 'return converter(value)', 'C03.g', 'Union._apply'),
         fire('custom-apply-skips-for-complete', D, 'Dict.custom_apply', 'if self._allow_partial == allow_partial:', 'if self._allow_partial == allow_partial or not self.sym_partial:', 'C03.f', 'Dict.custom_apply#partial'),
         fire('skip-apply-in-formalize', L, 'List._formalized_value',
@@ -178,6 +180,7 @@ VARIANTS = {
         silent('rename-local-source', L, 'List._sym_clone', 'source', 'items_', count=0),
     ],
     'C08': [
+        fire('clear-refill-under-own-flag', D, 'Dict.clear', 'with flags.notify_on_change(False), flags.allow_writable_accessors(True):', 'with flags.notify_on_change(False):', 'C08.h', 'Dict.clear#refill-scope'),
         fire('as-sealed-none-inherits', FL, 'as_sealed', 'return thread_local.thread_local_value_scope(_TLS_SEALED, sealed, None)', 'return thread_local.thread_local_value_scope(_TLS_SEALED, sealed if sealed is not None else is_under_sealed_scope(), None)', 'C08.g', 'as_sealed'),
         fire('list-born-sealed-shortcut', L, 'List.__init__', 'sealed=False, root_path=root_path)', 'sealed=sealed, root_path=root_path)', 'C08.f', 'List.__init__#born-sealed'),
         fire('append-without-seal-guard', L, 'List.append', 'if base.treats_as_sealed(self):', 'if False:', 'C08.b', 'List.append'),
@@ -310,6 +313,7 @@ VARIANTS = {
         silent('rename-key-constant-usage', TL, 'thread_local_value_scope', 'previous_value', 'prev', count=0),
     ],
     'C18': [
+        fire('keyword-stored-only-when-type-checking', FU, 'Functor._parse_call_time_overrides', 'if arg_spec:\n        if flags.is_type_check_enabled():\n          arg_value = arg_spec.apply(arg_value, root_path=self.sym_path + arg_name)\n        keyword_args[arg_name] = arg_value', 'if arg_spec and flags.is_type_check_enabled():\n        arg_value = arg_spec.apply(arg_value, root_path=self.sym_path + arg_name)\n        keyword_args[arg_name] = arg_value', 'C18.l', 'typecheck-flag'),
         fire('delattr-bookkeeping-first', FU, 'Functor.__delattr__', 'del self._sym_attributes[name]', 'self._specified_args.discard(name)\n    del self._sym_attributes[name]', 'C18.k', '__delattr__'),
         fire('functor-raw-arg-read', FU, 'Functor._parse_call_time_overrides', 'k: self.sym_inferred(k) for k in self._sym_attributes.keys()', 'k: v for k, v in self._sym_attributes.items()', 'C18.j', '_parse_call_time_overrides'),
         fire('call-init-raw-args', 'pyglove/core/symbolic/class_wrapper.py', '_SubclassedWrapperBase._call_init', 'dict(self.sym_init_args)', 'dict(self.sym_init_args.sym_items())', 'C18.j', '_call_init'),
